@@ -311,7 +311,13 @@ static std::string do_step(const std::vector<std::string>& w) {
     }
     return out;
   }
-  if (op == "blocks") {   // ordinal, pool and size of every block (monitor input)
+  if (op == "reset") {
+    if (w.size() != 2) return "bad-op";
+    A->reset(w[1] == "hard" ? ResetPolicy::kHard : ResetPolicy::kSoft);
+    for (Handle& h : H) { h.live = false; h.span = JitAllocator::Span{}; }
+    refresh_blocks();
+  }
+  if (op == "blocks" || op == "reset") {   // ordinal, pool and size of every block (monitor input)
     std::string out = "blocks";
     for (auto& x : blocks_sorted()) {
       JitAllocatorBlock* blk = x.second;
@@ -319,13 +325,6 @@ static std::string do_step(const std::vector<std::string>& w) {
              ":" + ((blk->_flags & JitAllocatorBlock::kFlagInitialPadding) ? "1" : "0");
     }
     return out;
-  }
-  if (op == "reset") {
-    if (w.size() != 2) return "bad-op";
-    A->reset(w[1] == "hard" ? ResetPolicy::kHard : ResetPolicy::kSoft);
-    for (Handle& h : H) { h.live = false; h.span = JitAllocator::Span{}; }
-    refresh_blocks();
-    return "ok";
   }
   if (op == "isinit") return A->is_initialized() ? "1" : "0";
   if (op == "rforeign") {
